@@ -87,6 +87,16 @@ pub fn run(f: &[&str]) -> String {
                 if let Some(u) = v.as_u64() {
                     if Value::from(u) != serde_json::to_value(u).unwrap() || Value::from(u) != *v { diffs.push("From-u64"); }
                 }
+                if let Some(x) = v.as_f64() {
+                    if v.is_f64() && (Value::from(x) != serde_json::to_value(x).unwrap() || Value::from(x) != *v) { diffs.push("From-f64"); }
+                    let y = x as f32;
+                    if Value::from(y) != serde_json::to_value(y).unwrap() { diffs.push("From-f32"); }
+                }
+                // non-finite floats become Null through every conversion
+                for nf in [f64::NAN, f64::INFINITY, f64::NEG_INFINITY] {
+                    if Value::from(nf) != Value::Null || serde_json::to_value(nf).unwrap() != Value::Null || Value::from(nf as f32) != Value::Null
+                        || serde_json::Number::from_f64(nf).is_some() || serde_json::to_string(&nf).unwrap() != "null" { diffs.push("non-finite"); break; }
+                }
                 // the twelve is_* / as_* accessors of Value agree with each other and with the variant
                 let kinds = [v.is_null(), v.is_boolean(), v.is_number(), v.is_string(), v.is_array(), v.is_object()];
                 if kinds.iter().filter(|x| **x).count() != 1 { diffs.push("is_x-not-exclusive"); }
